@@ -20,6 +20,7 @@ type Thread struct {
 	done   bool
 	waitFn func() bool
 	what   string
+	stack  []*ssa.Function
 }
 
 type abortSignal struct{}
